@@ -3,6 +3,7 @@ import FfcxModel.LNodes.Wire
 import FfcxModel.Codegen.Block
 import FfcxModel.Codegen.Spec
 import FfcxModel.Codegen.Partition
+import FfcxModel.Codegen.Definitions
 
 namespace Ffcx.Driver
 open Ffcx Ffcx.LNodes Ffcx.Codegen
@@ -163,7 +164,10 @@ def handleBlockWf (args : List Sexp) : Except String Sexp := do
       .list [.atom "regular", Sexp.ofBool (regularGroup g)],
       .list [.atom "names", Sexp.ofBool (namesOk g st)],
       .list [.atom "covers", Sexp.ofBool (coversA g)],
-      .list [.atom "injective", Sexp.ofBool (injectiveBlocks g)]]
+      .list [.atom "injective", Sexp.ofBool (injectiveBlocks g)],
+      .list [.atom "diagonal", Sexp.ofBool (diagonalGroup g)],
+      .list [.atom "coincident", Sexp.ofBool (coincidentMaps g)],
+      .list [.atom "tensor", Sexp.ofBool (tensorGroupB g st)]]
   | _ => throw "block_wf: expected (block_wf group state)"
 
 /-- `(loop_wf (group…) state (fw…))` → the decidable side conditions of `quadLoop_spec` /
@@ -226,5 +230,63 @@ def handleSsaOk (args : List Sexp) : Except String Sexp := do
   match args with
   | [ss] => return .list [.atom "ok", Sexp.ofBool (ssaOk (← (← ss.asList).mapM readStmt))]
   | _ => throw "ssa_ok: expected (ssa_ok (stmt…))"
+
+def optOf {α} (f : Sexp → Except String α) (s : Sexp) : Except String (Option α) :=
+  match s with
+  | .atom "none" => pure none
+  | x => do return some (← f x)
+
+/-- `(mt (mro…) (bases…) averaged|none restr (gd…) (ld…) gdim (comp…) flat cellname (auxdof…))` -/
+def readMt (s : Sexp) : Except String MtDesc := do
+  match s with
+  | .list [.atom "mt", mro, bases, av, r, gd, ld, gdim, comp, flat, cell, aux] =>
+    return { mro := ← (← mro.asList).mapM Sexp.asAtom, bases := ← (← bases.asList).mapM Sexp.asAtom,
+             averaged := ← optOf Sexp.asAtom av, restriction := ← readRestr r,
+             globalDerivs := ← (← gd.asList).mapM Sexp.asNat, localDerivs := ← (← ld.asList).mapM Sexp.asNat,
+             gdim := ← gdim.asNat, component := ← (← comp.asList).mapM Sexp.asNat,
+             flatComponent := ← flat.asNat, cellname := ← cell.asAtom,
+             auxDofs := ← (← aux.asList).mapM Sexp.asNat }
+  | _ => throw s!"bad mt {s.toStr.take 80}"
+
+/-- `(ctx entityType custom rule|none coeffNumber|none coeffOffset|none constOffset|none jnum numScalarDofs)` -/
+def readCtx (s : Sexp) : Except String DefCtx := do
+  match s with
+  | .list [.atom "ctx", et, cu, rule, cn, co, ko, jn, nsd] =>
+    return { entityType := ← et.asAtom, custom := ← cu.asBool, rule := ← optOf readRule rule,
+             coeffNumber := ← optOf Sexp.asNat cn, coeffOffset := ← optOf Sexp.asInt co,
+             constOffset := ← optOf Sexp.asInt ko, jnum := ← jn.asNat, numScalarDofs := ← nsd.asNat }
+  | _ => throw s!"bad ctx {s.toStr.take 80}"
+
+/-- `(gen_access ctx mt tref|none)` → `(ok access)` | `(raise E)` -/
+def handleGenAccess (args : List Sexp) : Except String Sexp := do
+  match args with
+  | [c, m, t] =>
+    return result (fun a => [writeMSym a]) (genAccess (← readCtx c) (← readMt m) (← optOf readTRef t))
+  | _ => throw "gen_access: expected (gen_access ctx mt tref)"
+
+/-- `(gen_definition ctx mt tref|none access)` → `(ok)` for `[]`, `(ok section)` | `(raise E)` -/
+def handleGenDefinition (args : List Sexp) : Except String Sexp := do
+  match args with
+  | [c, m, t, a] =>
+    return result (fun o => match o with | some s => [writeStmt s] | none => [])
+      (genDefinition (← readCtx c) (← readMt m) (← optOf readTRef t) (← readMSym a))
+  | _ => throw "gen_definition: expected (gen_definition ctx mt tref access)"
+
+/-- `(prefix_wf (dname…) (fw…) (i0…) (group…) state)` → the decidable side conditions of
+    `kernel_meets_spec_defs_partial` on one real quadrature loop -/
+def handlePrefixWf (args : List Sexp) : Except String Sexp := do
+  match args with
+  | [dn, fw, i0, gs, st] =>
+    let dn ← (← dn.asList).mapM Sexp.asAtom
+    let fw ← (← fw.asList).mapM readStmt
+    let i0 ← (← i0.asList).mapM readStmt
+    let gs ← (← gs.asList).mapM readGroup
+    let st ← readState st
+    return .list [.atom "ok",
+      .list [.atom "prefix", Sexp.ofBool (prefixOkB dn fw i0 (allFw st gs))],
+      .list [.atom "ssa", Sexp.ofBool (ssaOk i0)],
+      .list [.atom "fwdecls", Sexp.ofBool (fwDeclsOk fw)],
+      .list [.atom "fwlinked", Sexp.ofBool (fwLinkedB fw st gs)]]
+  | _ => throw "prefix_wf: expected (prefix_wf (dname…) (fw…) (i0…) (group…) state)"
 
 end Ffcx.Driver
